@@ -1,0 +1,35 @@
+//go:build verif
+
+package kvstore
+
+import "github.com/olric-data/olric/internal/kvstore/table"
+
+// VerifTables returns a white-box snapshot of every table, oldest first.
+func (k *KVStore) VerifTables() []table.VerifInfo {
+	res := make([]table.VerifInfo, 0, len(k.tables))
+	for _, t := range k.tables {
+		res = append(res, t.VerifInfo())
+	}
+	return res
+}
+
+// VerifTableHKeys returns, per table (oldest first), the hkeys it indexes.
+func (k *KVStore) VerifTableHKeys() []map[uint64]uint64 {
+	res := make([]map[uint64]uint64, 0, len(k.tables))
+	for _, t := range k.tables {
+		res = append(res, t.VerifHKeys())
+	}
+	return res
+}
+
+// VerifTableSize returns the configured table size.
+func (k *KVStore) VerifTableSize() uint64 { return k.tableSize }
+
+// VerifCoefficients returns the keys of the coefficient index.
+func (k *KVStore) VerifCoefficients() []uint64 {
+	var res []uint64
+	for cf := range k.tablesByCoefficient {
+		res = append(res, cf)
+	}
+	return res
+}
